@@ -83,7 +83,7 @@ def main(tier, seed):
     if tier != "quick":
         jobs.append((w_valgrind, (plain, "helgrind", 8, 800, seed + 1)))
         jobs.append((w_valgrind, (plain, "drd", 4, 1500, seed + 2)))
-    calls = overlaps = 0
+    calls = overlaps = ovcalls = 0
     foreign = 0
     runs = []
     for res in core.pmap(_run, jobs, nproc=4):
@@ -101,6 +101,8 @@ def main(tier, seed):
         if info and "calls" in info:
             calls += info["calls"]
             overlaps += info["overlapping_call_pairs"]
+            ovcalls += info.get("calls_overlapping_another_thread", 0)
+            rep.counters["%s.calls_overlapping_another_thread" % res["tool"]] += info.get("calls_overlapping_another_thread", 0)
             rep.counters["%s.calls" % res["tool"]] += info["calls"]
             rep.counters["%s.overlapping_call_pairs" % res["tool"]] += info["overlapping_call_pairs"]
             rep.counters["%s.runs" % res["tool"]] += 1
@@ -129,11 +131,11 @@ def main(tier, seed):
     rep.assumptions += ["happens-before race detection covers the partial orders of the executed runs, not all interleavings",
                         "libidn2/libunistring are uninstrumented: races inside them are visible to helgrind/drd only and reports "
                         "without a libeav frame are listed as foreign, not as violations"]
-    return rep.finish(calls, overlaps,
+    return rep.finish(calls, ovcalls,
                       "threads x calls on %d shared read-only strings: 13 call kinds (eav_is_email in 4 modes x tld x 4 masks on a per-thread "
                       "eav_t, is_<rfc>_email, is_*_local, domain/IP/TLD validators, failing eav_setup); TSan runs with T in {2,4,8,16} x %d "
-                      "seeds (with and without yield/sleep perturbation), helgrind%s; distinct_nontrivial = overlapping call pairs across "
-                      "threads measured from per-call clock intervals" % (len(POOL), reps, "" if tier == "quick" else " + drd"),
+                      "seeds (with and without yield/sleep perturbation), helgrind%s; distinct_nontrivial = calls (first 4000 per thread are "
+                      "timed) whose clock interval overlapped a call of another thread" % (len(POOL), reps, "" if tier == "quick" else " + drd"),
                       {"builds": cx.builds_info()})
 
 
